@@ -5,6 +5,7 @@ import (
 	"go/constant"
 	"go/token"
 	"go/types"
+	"os"
 	"regexp"
 	"strings"
 
@@ -314,6 +315,24 @@ func (r *decideRun) foldValue(v ssa.Value) (AV, bool) {
 				}
 			}
 		case *ssa.Global:
+			// a package-level variable of function or interface type that is assigned once, by the initialiser
+			if pt, ok := a.Type().(*types.Pointer); ok {
+				switch pt.Elem().Underlying().(type) {
+				case *types.Signature, *types.Interface:
+					v := globalInitStore(a)
+					if debugDecide {
+						fmt.Fprintf(os.Stderr, "decide: global %s init store = %v\n", a.Name(), v)
+					}
+					if v != nil {
+						saved := r.err
+						av := r.eval(v)
+						r.err = saved
+						if av.Kind != "unknown" && av.Kind != "" {
+							return av, true
+						}
+					}
+				}
+			}
 			if pt, ok := a.Type().(*types.Pointer); ok {
 				if _, isSt := pt.Elem().Underlying().(*types.Struct); isSt {
 					if sv, ok := r.globalStructAV(a); ok {
@@ -605,4 +624,106 @@ func (r *decideRun) builderStep(x *ssa.Call) {
 		poison()
 	}
 	r.err = saved
+}
+
+// globalInitStore: the value stored into package-level variable g by its only store, which is in the package
+// initialiser; nil when g is written anywhere else (or its address is handed out).
+func globalInitStore(g *ssa.Global) ssa.Value {
+	if g.Pkg == nil {
+		return nil
+	}
+	var val ssa.Value
+	n := 0
+	bad := false
+	for _, m := range g.Pkg.Members {
+		fn, isFn := m.(*ssa.Function)
+		if !isFn {
+			continue
+		}
+		for _, f := range allFuncsWithAnon(fn) {
+			for _, b := range f.Blocks {
+				for _, in := range b.Instrs {
+					for _, op := range in.Operands(nil) {
+						if *op != ssa.Value(g) {
+							continue
+						}
+						switch x := in.(type) {
+						case *ssa.Store:
+							if x.Addr == ssa.Value(g) {
+								n++
+								if f.Name() == "init" {
+									val = x.Val
+								} else {
+									bad = true
+								}
+							} else {
+								bad = true
+							}
+						case *ssa.UnOp:
+						default:
+							bad = true
+						}
+					}
+				}
+			}
+		}
+	}
+	if bad || n != 1 {
+		return nil
+	}
+	return val
+}
+
+// initAllocs: address key -> the Alloc, for objects allocated in a package initialiser.
+var initAllocCache = map[string]*ssa.Alloc{}
+
+// initObjectPart: the value of a part (field path below address key) of an object allocated in a package
+// initialiser, when that part is stored exactly once there and the object is never written elsewhere.
+func (r *decideRun) initObjectPart(key string) (AV, bool) {
+	i := strings.Index(key, ".f")
+	if i < 0 {
+		return AV{}, false
+	}
+	base, path := key[:i], key[i:]
+	root := r
+	for root.parent != nil {
+		root = root.parent
+	}
+	al := root.allocs["alloc:"+strings.TrimPrefix(base, "a")]
+	if al == nil || al.Parent() == nil || al.Parent().Name() != "init" {
+		return AV{}, false
+	}
+	// single-level field paths only
+	var fidx int
+	if _, err := fmt.Sscanf(path, ".f%d", &fidx); err != nil || path != fmt.Sprintf(".f%d", fidx) {
+		return AV{}, false
+	}
+	var val ssa.Value
+	n := 0
+	for _, ref := range *al.Referrers() {
+		switch x := ref.(type) {
+		case *ssa.FieldAddr:
+			for _, fr := range *x.Referrers() {
+				if st, isSt := fr.(*ssa.Store); isSt && st.Addr == ssa.Value(x) && x.Field == fidx {
+					n++
+					val = st.Val
+				}
+			}
+		}
+	}
+	if n != 1 {
+		if n == 0 {
+			if st, isSt := derefType(al.Type()).Underlying().(*types.Struct); isSt && fidx < st.NumFields() {
+				return zeroAV(st.Field(fidx).Type())
+			}
+		}
+		return AV{}, false
+	}
+	saved := r.err
+	av := r.eval(val)
+	r.err = saved
+	if av.Kind == "unknown" || av.Kind == "" {
+		return AV{}, false
+	}
+	return av, true
 }
